@@ -85,3 +85,12 @@ package obykeyset
 //@   ensures[nothing-left-pending] len(cache.PendingLogs) == 0 && cache.PendingBytes == 0
 //@   ensures[message-is-the-pending-records-in-order] len(lastflushed) == old(len(cache.PendingLogs)) && forall i int :: 0 <= i && i < len(lastflushed) ==> lastflushed[i] == old(cache.PendingLogs[i])
 //@   ensures[one-message-or-a-reported-timeout] nsent(cache.Channel) == old(nsent(cache.Channel)) + 1 || nsent(cache.Channel) == old(nsent(cache.Channel))
+
+// Shutdown waits for the pipelines: it returns from the map's Destroy (which waits for every worker, see localcachedmap)
+//@ func (o *byKeySetOrchestrator) Shutdown()
+//@   property C05 C17
+//@   flag nosafety noinfer
+//@   requires o != nil
+//@   modifies everything
+//@   ensures[shutdown-waits-for-every-pipeline] ncalls("localcachedmap.GlobalCachedMap.Destroy") == old(ncalls("localcachedmap.GlobalCachedMap.Destroy")) + 1
+
